@@ -1062,6 +1062,29 @@ func (f *Frame) step(in ssa.Instruction) {
 				f.set(x, f.tableValue(tbl, AInt{a: f.use(k, "map key")}, "", x.Type(), x.Name()))
 				break
 			}
+			// a table of functions keyed by a boolean: the entry for a constant key, the pair otherwise
+			if kb, ok := f.val(x.Index).(ABool); ok {
+				if _, isFn := x.Type().Underlying().(*types.Signature); isFn {
+					vf, okf := f.tableValue(tbl, AInt{a: affConst(0)}, "", x.Type(), x.Name()).(AFunc)
+					vt, okt := f.tableValue(tbl, AInt{a: affConst(1)}, "", x.Type(), x.Name()).(AFunc)
+					if okf && okt {
+						if kb.f.kind == fConst {
+							if kb.f.b {
+								f.set(x, vt)
+							} else {
+								f.set(x, vf)
+							}
+							break
+						}
+						sel := f.an.u.sym(f.key+"sel:"+x.Name(), 0, 1)
+						pos := dnfAnd(DNF{Conj{atomEQ(affSym(sel), affConst(1))}}, kb.f.dnf(false))
+						neg := dnfAnd(DNF{Conj{atomEQ(affSym(sel), affConst(0))}}, kb.f.dnf(true))
+						f.cur = f.compress(dnfAnd(f.cur, append(pos, neg...)))
+						f.set(x, AFuncSet{key: f.key + x.Name(), alts: []AFunc{vf, vt}, sel: sel})
+						break
+					}
+				}
+			}
 			// a two-entry table keyed by a boolean: false-entry + (true-entry - false-entry)*key
 			if kb, ok := f.val(x.Index).(ABool); ok && isIntType(x.Type()) {
 				vf, okf := f.tableValue(tbl, AInt{a: affConst(0)}, "", x.Type(), x.Name()).(AInt)
